@@ -72,10 +72,15 @@ pub fn c18(d: &[u8]) -> Result<(), String> {
     if let Err(e) = Unknown::parse(d) {
         truthful(&e, d, None)?;
     }
-    if let Err(e) = Compound::parse(d) {
+    if let Err(e) = ReportBlock::parse(d) {
         truthful(&e, d, None)?;
     }
-    if let Err(e) = ReportBlock::parse(d) {
+    // compound parsing last, inside the "parsing itself" window: if it panics or hangs on this input that is C01's
+    // business and says nothing about the truthfulness of errors
+    crate::IN_PARSE_PRECHECK.store(1, std::sync::atomic::Ordering::SeqCst);
+    let c = std::panic::catch_unwind(|| Compound::parse(d).map(|_| ()));
+    crate::IN_PARSE_PRECHECK.store(0, std::sync::atomic::Ordering::SeqCst);
+    if let Ok(Err(e)) = c {
         truthful(&e, d, None)?;
     }
     Ok(())
